@@ -27,8 +27,8 @@ theorem calc_highest_translated_full (su : Suit) (cards : List Card) :
     P.runMethod n_PlayingPhase n_calc_highest [encSuit su, .tuple (cards.map encCard)]
       = .ok (.int (calcHighest su cards), encSuit su) := by
   have run : P.runMethod n_PlayingPhase n_calc_highest [encSuit su, .tuple (cards.map encCard)]
-      = callF (mkRec P 99999) m_PlayingPhase_calc_highest [encSuit su, encCards cards] := rfl
-  rw [run]; exact calc_highest_call 99987 su cards
+      = callF (mkRec P 999) m_PlayingPhase_calc_highest [encSuit su, encCards cards] := rfl
+  rw [run]; exact calc_highest_call 987 su cards
 
 theorem calc_highest_translated (su : Suit) (cards : List Card) :
     (P.runMethod n_PlayingPhase n_calc_highest [encSuit su, .tuple (cards.map encCard)]).map (·.1)
@@ -40,29 +40,29 @@ theorem available_cards_translated (hand : List Card) (first : Option Card) :
     (P.runMethod n_PlayingPhase n_available_cards [.tuple (hand.map encCard), encOpt encCard first]).map (·.1)
       = .ok (.tuple ((availableCards hand first).map encCard)) := by
   have run : P.runMethod n_PlayingPhase n_available_cards [.tuple (hand.map encCard), encOpt encCard first]
-      = callF (mkRec P 99999) m_PlayingPhase_available_cards [encCards hand, encOpt encCard first] := rfl
-  rw [run, available_cards_call 99987 hand first]; rfl
+      = callF (mkRec P 999) m_PlayingPhase_available_cards [encCards hand, encOpt encCard first] := rfl
+  rw [run, available_cards_call 987 hand first]; rfl
 
 /-- `first_card` left to its default `None` -/
 theorem available_cards_translated_default (hand : List Card) :
     (P.runMethod n_PlayingPhase n_available_cards [.tuple (hand.map encCard)]).map (·.1)
       = .ok (.tuple ((availableCards hand none).map encCard)) := by
   have run : P.runMethod n_PlayingPhase n_available_cards [.tuple (hand.map encCard)]
-      = callF (mkRec P 99999) m_PlayingPhase_available_cards [encCards hand, encOpt encCard none] := rfl
-  rw [run, available_cards_call 99987 hand none]; rfl
+      = callF (mkRec P 999) m_PlayingPhase_available_cards [encCards hand, encOpt encCard none] := rfl
+  rw [run, available_cards_call 987 hand none]; rfl
 
 theorem current_available_cards_translated (c : Contract) (s : PState) (hand : List Card) :
     P.runMethod n_PlayingPhase n_current_available_cards [encPState c s, .tuple (hand.map encCard)]
       = .ok (.tuple ((s.currentAvailable hand).map encCard), encPState c s) := by
   have run : P.runMethod n_PlayingPhase n_current_available_cards [encPState c s, .tuple (hand.map encCard)]
-      = callF (mkRec P 99999) m_PlayingPhase_current_available_cards [encPState c s, encCards hand] := rfl
-  rw [run, ← ppObj_base, current_available_call 99979 n_PlayingPhase [] c s hand]; rfl
+      = callF (mkRec P 999) m_PlayingPhase_current_available_cards [encPState c s, encCards hand] := rfl
+  rw [run, ← ppObj_base, current_available_call 979 n_PlayingPhase [] c s hand]; rfl
 
 theorem play_has_done_translated (c : Contract) (s : PState) :
     P.runMethod n_PlayingPhase n_has_done [encPState c s] = .ok (.bool s.hasDone, encPState c s) := by
   have run : P.runMethod n_PlayingPhase n_has_done [encPState c s]
-      = callF (mkRec P 99999) m_PlayingPhase_has_done [encPState c s] := rfl
-  rw [run, ← ppObj_base, has_done_call 99991 n_PlayingPhase [] c s]
+      = callF (mkRec P 999) m_PlayingPhase_has_done [encPState c s] := rfl
+  rw [run, ← ppObj_base, has_done_call 991 n_PlayingPhase [] c s]
 
 theorem play_init_translated_cases (c : Contract) :
     P.runNew n_PlayingPhase [encContract c] =
@@ -71,8 +71,8 @@ theorem play_init_translated_cases (c : Contract) :
       | some _, none => .error (.exc K.AssertionError)
       | some b, some d => .ok (encPState c (initState b d)) := by
   have run : P.runNew n_PlayingPhase [encContract c]
-      = (callF (mkRec P 99999) m_PlayingPhase___init__ [.obj n_PlayingPhase [], encContract c] >>= fun x => pure x.2) := rfl
-  rw [run, init_call 99959 n_PlayingPhase c]
+      = (callF (mkRec P 999) m_PlayingPhase___init__ [.obj n_PlayingPhase [], encContract c] >>= fun x => pure x.2) := rfl
+  rw [run, init_call 959 n_PlayingPhase c]
   cases c.finalBid with
   | none => rfl
   | some b =>
@@ -117,24 +117,24 @@ theorem play_card_translated (c : Contract) (s : PState) (card : Card) (h : WF s
     P.runMethod n_PlayingPhase n_play_card [encPState c s, encCard card]
       = .ok (.none, encPState c (playCard s card)) := by
   have run : P.runMethod n_PlayingPhase n_play_card [encPState c s, encCard card]
-      = callF (mkRec P 99999) m_PlayingPhase_play_card [encPState c s, encCard card] := rfl
-  rw [run, ← ppObj_base, play_card_call 99949 n_PlayingPhase ppclass_base [] c s card (fun _ => h), ppObj_base]
+      = callF (mkRec P 999) m_PlayingPhase_play_card [encPState c s, encCard card] := rfl
+  rw [run, ← ppObj_base, play_card_call 949 n_PlayingPhase ppclass_base [] c s card (fun _ => h), ppObj_base]
 
 /-- the hypothesis is needed only for the card that completes a trick -/
 theorem play_card_translated' (c : Contract) (s : PState) (card : Card) (h : s.trick.length = 3 → WF s) :
     P.runMethod n_PlayingPhase n_play_card [encPState c s, encCard card]
       = .ok (.none, encPState c (playCard s card)) := by
   have run : P.runMethod n_PlayingPhase n_play_card [encPState c s, encCard card]
-      = callF (mkRec P 99999) m_PlayingPhase_play_card [encPState c s, encCard card] := rfl
-  rw [run, ← ppObj_base, play_card_call 99949 n_PlayingPhase ppclass_base [] c s card h, ppObj_base]
+      = callF (mkRec P 999) m_PlayingPhase_play_card [encPState c s, encCard card] := rfl
+  rw [run, ← ppObj_base, play_card_call 949 n_PlayingPhase ppclass_base [] c s card h, ppObj_base]
 
 /-- and there it IS needed: the translated code raises `ValueError` (from `PlayingHistory.record`), where the model
 just goes on -/
 theorem play_card_translated_not_wf (c : Contract) (s : PState) (card : Card) (h3 : s.trick.length = 3) (h : ¬ WF s) :
     P.runMethod n_PlayingPhase n_play_card [encPState c s, encCard card] = .error (.exc K.ValueError) := by
   have run : P.runMethod n_PlayingPhase n_play_card [encPState c s, encCard card]
-      = callF (mkRec P 99999) m_PlayingPhase_play_card [encPState c s, encCard card] := rfl
-  rw [run, ← ppObj_base, play_card_call_bad 99949 n_PlayingPhase ppclass_base [] c s card h3 h]
+      = callF (mkRec P 999) m_PlayingPhase_play_card [encPState c s, encCard card] := rfl
+  rw [run, ← ppObj_base, play_card_call_bad 949 n_PlayingPhase ppclass_base [] c s card h3 h]
 
 /-- any sequence of cards played on a translated `PlayingPhase` -/
 def runTranslatedPlay (st : Val) : List Card → R Val
@@ -167,8 +167,8 @@ theorem play_by_translated (c : Contract) (s : PState) (card : Card) (p : Seat) 
         | .error _ => .error (.exc K.ValueError)
         | .ok s' => .ok (.none, encPState c s') := by
   have run : P.runMethod n_PlayingPhase n_play_card_by_player [encPState c s, encCard card, encSeat p]
-      = callF (mkRec P 99999) m_PlayingPhase_play_card_by_player [encPState c s, encCard card, encSeat p] := rfl
-  rw [run, ← ppObj_base, play_by_call 99939 c s card p h]
+      = callF (mkRec P 999) m_PlayingPhase_play_card_by_player [encPState c s, encCard card, encSeat p] := rfl
+  rw [run, ← ppObj_base, play_by_call 939 c s card p h]
   cases s.playBy card p with
   | error e => rfl
   | ok s' => simp only [ppObj_base]
@@ -181,9 +181,9 @@ theorem with_hands_init_translated (c : Contract) (hands : Seat → List Card) :
       | some _, none => .error (.exc K.AssertionError)
       | some b, some d => .ok (encWithHands c ⟨initState b d, hands⟩) := by
   have run : P.runNew n_PlayingPhaseWithHands [encContract c, .dict (handsKvs hands)]
-      = (callF (mkRec P 99999) m_PlayingPhaseWithHands___init__
+      = (callF (mkRec P 999) m_PlayingPhaseWithHands___init__
           [.obj n_PlayingPhaseWithHands [], encContract c, .dict (handsKvs hands)] >>= fun x => pure x.2) := rfl
-  rw [run, with_hands_init_call 99949 c hands]
+  rw [run, with_hands_init_call 949 c hands]
   cases c.finalBid with
   | none => rfl
   | some b =>
@@ -209,17 +209,17 @@ theorem with_hands_play_translated (c : Contract) (w : WithHands) (card : Card) 
         | .error _ => .error (.exc K.ValueError)
         | .ok w' => .ok (.none, encWithHands c w') := by
   have run : P.runMethod n_PlayingPhaseWithHands n_play_card_by_player [encWithHands c w, encCard card, encSeat p]
-      = callF (mkRec P 99999) m_PlayingPhaseWithHands_play_card_by_player [encWithHands c w, encCard card, encSeat p] :=
+      = callF (mkRec P 999) m_PlayingPhaseWithHands_play_card_by_player [encWithHands c w, encCard card, encSeat p] :=
     rfl
-  rw [run, with_hands_play_call 99939 c w card p h]
+  rw [run, with_hands_play_call 939 c w card p h]
   cases w.play card p <;> rfl
 
 theorem with_hands_available_translated (c : Contract) (w : WithHands) (p : Seat) :
     P.runMethod n_PlayingPhaseWithHands n_current_available_cards_in_hand [encWithHands c w, encSeat p]
       = .ok (.tuple ((w.base.currentAvailable (w.hands p)).map encCard), encWithHands c w) := by
   have run : P.runMethod n_PlayingPhaseWithHands n_current_available_cards_in_hand [encWithHands c w, encSeat p]
-      = callF (mkRec P 99999) m_PlayingPhaseWithHands_current_available_cards_in_hand [encWithHands c w, encSeat p] := rfl
-  rw [run, with_hands_available_call 99969 c w p]; rfl
+      = callF (mkRec P 999) m_PlayingPhaseWithHands_current_available_cards_in_hand [encWithHands c w, encSeat p] := rfl
+  rw [run, with_hands_available_call 969 c w p]; rfl
 
 theorem wf_with_hands_init (c : Contract) (hands : Seat → List Card) (w : WithHands)
     (h : WithHands.init c hands = some w) : WF w.base := by
@@ -245,9 +245,9 @@ theorem observed_init_translated (c : Contract) (me : Seat) (hand : List Card) :
       | some _, none => .error (.exc K.AssertionError)
       | some b, some d => .ok (encObserved c ⟨initState b d, me, hand, none⟩) := by
   have run : P.runNew n_ObservedPlayingPhase [encContract c, encSeat me, .tuple (hand.map encCard)]
-      = (callF (mkRec P 99999) m_ObservedPlayingPhase___init__
+      = (callF (mkRec P 999) m_ObservedPlayingPhase___init__
           [.obj n_ObservedPlayingPhase [], encContract c, encSeat me, encCards hand] >>= fun x => pure x.2) := rfl
-  rw [run, observed_init_call 99949 c me hand]
+  rw [run, observed_init_call 949 c me hand]
   cases c.finalBid with
   | none => rfl
   | some b =>
@@ -270,8 +270,8 @@ theorem set_dummy_translated (c : Contract) (o : Observed) (dh : List Card) :
     P.runMethod n_ObservedPlayingPhase n_set_dummy_hand [encObserved c o, .tuple (dh.map encCard)]
       = .ok (.none, encObserved c (o.setDummy dh)) := by
   have run : P.runMethod n_ObservedPlayingPhase n_set_dummy_hand [encObserved c o, .tuple (dh.map encCard)]
-      = callF (mkRec P 99999) m_ObservedPlayingPhase_set_dummy_hand [encObserved c o, encCards dh] := rfl
-  rw [run, set_dummy_call 99989 c o dh]
+      = callF (mkRec P 999) m_ObservedPlayingPhase_set_dummy_hand [encObserved c o, encCards dh] := rfl
+  rw [run, set_dummy_call 989 c o dh]
 
 /-- `.turn` and `.notHeld` are `ValueError`, `.dummyNotSet` is `Exception` -/
 theorem observed_play_translated (c : Contract) (o : Observed) (card : Card) (p : Seat) (h : WF o.base) :
@@ -281,8 +281,8 @@ theorem observed_play_translated (c : Contract) (o : Observed) (card : Card) (p 
         | .error _ => .error (.exc K.ValueError)
         | .ok o' => .ok (.none, encObserved c o') := by
   have run : P.runMethod n_ObservedPlayingPhase n_play_card_by_player [encObserved c o, encCard card, encSeat p]
-      = callF (mkRec P 99999) m_ObservedPlayingPhase_play_card_by_player [encObserved c o, encCard card, encSeat p] := rfl
-  rw [run, observed_play_call 99939 c o card p h]
+      = callF (mkRec P 999) m_ObservedPlayingPhase_play_card_by_player [encObserved c o, encCard card, encSeat p] := rfl
+  rw [run, observed_play_call 939 c o card p h]
   cases o.play card p with
   | error e => cases e <;> rfl
   | ok o' => rfl
@@ -291,8 +291,8 @@ theorem observed_available_translated (c : Contract) (o : Observed) :
     P.runMethod n_ObservedPlayingPhase n_current_available_cards_in_hand [encObserved c o]
       = .ok (.tuple ((o.base.currentAvailable o.hand).map encCard), encObserved c o) := by
   have run : P.runMethod n_ObservedPlayingPhase n_current_available_cards_in_hand [encObserved c o]
-      = callF (mkRec P 99999) m_ObservedPlayingPhase_current_available_cards_in_hand [encObserved c o] := rfl
-  rw [run, observed_available_call 99969 c o]; rfl
+      = callF (mkRec P 999) m_ObservedPlayingPhase_current_available_cards_in_hand [encObserved c o] := rfl
+  rw [run, observed_available_call 969 c o]; rfl
 
 theorem observed_available_dummy_translated (c : Contract) (o : Observed) :
     P.runMethod n_ObservedPlayingPhase n_current_available_cards_in_dummy_hand [encObserved c o]
@@ -300,8 +300,8 @@ theorem observed_available_dummy_translated (c : Contract) (o : Observed) :
         | none => .error (.exc K.Exception)
         | some dl => .ok (.tuple ((o.base.currentAvailable dl).map encCard), encObserved c o) := by
   have run : P.runMethod n_ObservedPlayingPhase n_current_available_cards_in_dummy_hand [encObserved c o]
-      = callF (mkRec P 99999) m_ObservedPlayingPhase_current_available_cards_in_dummy_hand [encObserved c o] := rfl
-  rw [run, observed_available_dummy_call 99969 c o]; rfl
+      = callF (mkRec P 999) m_ObservedPlayingPhase_current_available_cards_in_dummy_hand [encObserved c o] := rfl
+  rw [run, observed_available_dummy_call 969 c o]; rfl
 
 theorem wf_observed_init (c : Contract) (me : Seat) (hand : List Card) (o : Observed)
     (h : Observed.init c me hand = some o) : WF o.base := by
